@@ -5,6 +5,7 @@ import (
 	"context"
 	"crypto/sha256"
 	"encoding/hex"
+	"encoding/json"
 	"fmt"
 	"os"
 	"os/exec"
@@ -42,14 +43,30 @@ import (
 // file by file. The race detector's reports are collected by the substrate (run/race.go):
 // any report with a d2 frame is a violation of clause C25.data-race.
 //
-// Not demanded: CLI bytes = library bytes (the CLI adds its own options); wall-clock anything.
+//	after  once the concurrent phase is over the input is rendered once more: the n-th render
+//	       in a long-lived process, after other diagrams were processed, must equal the first;
+//	cli=   for single-board inputs the file a fresh `d2` process writes is the library's
+//	       d2svg.Render output plus a final newline (same code, same default options): the bytes
+//	       of the fresh process must equal the bytes rendered in the long-lived worker.
+//
+// Besides gen.Diagram inputs, one case in ten is a "stateful labels" scenario
+// (gen.Render1StatefulLabels): LaTeX blocks that use a control sequence which a LATER block,
+// another board or ANOTHER diagram (a bystander rendered concurrently) declares
+// (\DeclareMathOperator, \definecolor, \DeclarePairedDelimiter, \newcommand), plus markdown
+// and code labels. A label renderer that keeps a runtime between calls leaks such
+// declarations; the outputs then depend on what was rendered before. MathJax in goja under
+// the race detector costs minutes per diagram, so these cases are delegated to the plain
+// (non -race) build of the same harness binary (bin/vd next to bin/vd-race); the race
+// detector keeps watching all other cases.
+//
+// Not demanded: wall-clock anything.
 func init() {
 	run.Register(&run.Check{
 		ID: "C25", Title: "Rendering is deterministic regardless of scheduling",
-		LevelText: "Exploration under the race detector: each generated diagram is rendered by dagre or ELK, with sketch mode on or off, twice sequentially, then from 4–8 goroutines at once together with other diagrams at GOMAXPROCS ∈ {1,2,4,16}, and by two fresh d2 CLI processes; all SVG outputs of the same (input, options) must be byte-identical and the race detector must stay silent on d2 frames.",
+		LevelText: "Exploration under the race detector: each generated diagram is rendered by dagre or ELK, with sketch mode on or off, twice sequentially, then from 4–8 goroutines at once together with other diagrams at GOMAXPROCS ∈ {1,2,4,16}, once more after the other diagrams, and by two fresh d2 CLI processes; all SVG outputs of the same (input, options) — including fresh process vs. long-lived worker for single-board inputs — must be byte-identical and the race detector must stay silent on d2 frames.",
 		Technique: "runtime monitoring: byte-equality oracle across sequential / concurrent / cross-process renders + Go race detector",
 		DesignRef: "§4 C25",
-		Rule:      "cases: gen.Diagram × {dagre ×9/10, elk ×1/10} × sketch on (≈3/10) / off × GOMAXPROCS ∈ {1,2,4,16}; distinct by sha256(case); non-trivial when the input has ≥2 shapes, ≥2 sequential and ≥2 concurrent renders of it succeeded and were compared while ≥2 other renders were in flight",
+		Rule:      "cases per 10: 8 gen.Diagram × dagre (3 with sketch), 1 × elk, 1 stateful-labels scenario (gen.Render1StatefulLabels: LaTeX use-before-declare in the same diagram / another board / another diagram, markdown, code; run by the plain build) × GOMAXPROCS ∈ {1,2,4,16}; distinct by sha256(case); non-trivial when the input has ≥2 shapes, ≥2 sequential and ≥2 concurrent renders of it succeeded and were compared while ≥2 other renders were in flight",
 		Race:      true,
 		// The first (sequential) render of a case is run under recover and a panic there is
 		// skipped (totality of layout/render belongs to C17). Once that render has succeeded, a
@@ -71,6 +88,8 @@ type c25In struct {
 	Engine string   `json:"engine"`
 	Sketch bool     `json:"sketch"`
 	Procs  int      `json:"procs"`
+	// Stateful: a gen.Render1StatefulLabels scenario (variant name); executed by the plain build
+	Stateful string `json:"stateful,omitempty"`
 }
 
 func c25Opts() gen.DiagramOpts {
@@ -80,16 +99,16 @@ func c25Opts() gen.DiagramOpts {
 
 func genC25(seed int64, tier string, emit func(run.Case)) {
 	r := gen.New(seed)
-	n := tierN(tier, 30, 1500)
+	n := tierN(tier, 20, 1500)
 	if tier == "mutant" {
 		n = 8 // `vd run C25 mutant`: the first cases of the quick list, for validating the monitor against seeded mutants
 	}
 	procs := []int{1, 2, 4, 16}
 	for i := 0; i < n; i++ {
 		q := r.Sub(i)
-		// per 10 cases: 6 dagre plain, 3 dagre sketch, 1 elk (sketch on every other one). A render
-		// under -race costs ≈1 s dagre, ≈3 s dagre+sketch, ≈5–8 s elk on an idle machine: this mix
-		// keeps quick ≲60 s there.
+		// per 10 cases: 5 dagre plain, 3 dagre sketch, 1 stateful-labels scenario, 1 elk (sketch on
+		// every other one). A render under -race costs ≈1 s dagre, ≈3 s dagre+sketch, ≈5–8 s elk on
+		// an idle machine.
 		eng, sketch := "dagre", false
 		switch i % 10 {
 		case 3, 6, 8:
@@ -97,10 +116,16 @@ func genC25(seed int64, tier string, emit func(run.Case)) {
 		case 9:
 			eng, sketch = "elk", (i/10)%2 == 1
 		}
+		if i%10 == 1 {
+			main, by, variant := gen.Render1StatefulLabels(q)
+			in := c25In{Text: main, Others: by, Engine: "dagre", Sketch: (i/10)%3 == 2, Procs: procs[(i/10)%len(procs)], Stateful: variant}
+			emit(run.MkCase(fmt.Sprintf("c%05d", i), "stateful", in))
+			continue
+		}
 		o := c25Opts()
 		o.Engine = eng
 		if tier != "thorough" {
-			o.Latex = -1 // MathJax in goja under -race: tens of seconds per label
+			o.Latex = -1 // MathJax in goja under -race: tens of seconds per label (see the stateful cases)
 			o.MaxObjects = 6
 		}
 		if eng == "elk" {
@@ -215,6 +240,12 @@ func c25Context(a, b []byte) string {
 func execC25(c run.Case) (res run.Result) {
 	var in c25In
 	c.Decode(&in)
+	if in.Stateful != "" && c25RaceBuild {
+		if r, ok := c25Delegate(c); ok {
+			return r
+		}
+		// no plain build next to this binary: run it here (slow, but still correct)
+	}
 	mode := in.Engine
 	if in.Sketch {
 		mode += "+sketch"
@@ -257,6 +288,10 @@ func execC25(c run.Case) (res run.Result) {
 		return ""
 	}
 	c2rFeatures(in.Text, res.Inc)
+	if in.Stateful != "" {
+		res.Inc("stateful_" + in.Stateful)
+		mode += ":stateful-labels"
+	}
 	res.Inc("mode_" + mode)
 	res.Inc(fmt.Sprintf("gomaxprocs_%d", in.Procs))
 	seqOK := 1
@@ -280,7 +315,7 @@ func execC25(c run.Case) (res run.Result) {
 		other  int
 	}
 	nSelf := 4 // 8 goroutines: 4 × this input, 4 × bystanders
-	if in.Engine == "elk" || in.Sketch {
+	if in.Engine == "elk" || in.Sketch || in.Stateful != "" {
 		nSelf = 2 // 4 goroutines for the expensive modes
 	}
 	var jobs []job
@@ -340,8 +375,19 @@ func execC25(c run.Case) (res run.Result) {
 		}
 	}
 
+	// ---- once more, after the other diagrams went through this process
+	if last, _, err := c25Render(in.Text, in.Engine, in.Sketch); err != nil {
+		viol("C25.error-differs", "C25.error-differs:after-others:"+mode+errClass(err), fmt.Sprintf("first render succeeded, the render after the concurrent phase failed: %s\n%s", errText(err), in.Text))
+	} else {
+		res.Inc("renders_after_others")
+		if !bytes.Equal(ref, last) {
+			viol("C25.svg-differs", "C25.svg-differs:after-others:"+mode+":"+c25DiffClass(ref, last),
+				fmt.Sprintf("the render after other diagrams were processed differs from the first render of the same input: %s\n%s", c25Context(ref, last), in.Text))
+		}
+	}
+
 	// ---- fresh CLI processes
-	cliOK := c25CLI(&res, viol, in, mode)
+	cliOK := c25CLI(&res, viol, in, mode, ref)
 
 	res.Nontrivial = nShapes >= 2 && seqOK >= 2 && concOK >= 2 && othersOK >= 2
 	res.Add("cli_pairs_compared", cliOK)
@@ -350,7 +396,7 @@ func execC25(c run.Case) (res run.Result) {
 }
 
 // c25CLI renders the input with two fresh d2 processes and compares their output trees.
-func c25CLI(res *run.Result, viol func(clause, sig, msg string), in c25In, mode string) int {
+func c25CLI(res *run.Result, viol func(clause, sig, msg string), in c25In, mode string, inproc []byte) int {
 	root := os.Getenv("VERIF_ROOT")
 	if root == "" {
 		root = "/verif"
@@ -442,5 +488,80 @@ func c25CLI(res *run.Result, viol func(clause, sig, msg string), in c25In, mode 
 		}
 	}
 	res.Add("cli_files_compared", len(names))
+	// fresh process vs. long-lived process: a single-board input is written as one file that is
+	// d2svg.Render's output plus a newline
+	if len(names) == 1 && !bytes.Contains(inproc, []byte("\n<!--board-->\n")) {
+		a := bytes.TrimSuffix(outs[0][names[0]], []byte("\n"))
+		res.Inc("cli_vs_inprocess_compared")
+		if !bytes.Equal(a, inproc) {
+			viol("C25.svg-differs", "C25.svg-differs:fresh-process-vs-long-lived:"+mode+":"+c25DiffClass(a, inproc),
+				fmt.Sprintf("a fresh d2 process and the long-lived worker process render the same input differently: %s\n%s", c25Context(a, inproc), in.Text))
+		}
+	} else {
+		res.Inc("cli_vs_inprocess_skipped_multiboard")
+	}
 	return 1
+}
+
+// c25Delegate runs the case in the plain (non -race) build of this binary, which the check
+// script builds next to the race build, through the ordinary worker protocol.
+func c25Delegate(c run.Case) (run.Result, bool) {
+	self, err := os.Executable()
+	if err != nil {
+		return run.Result{}, false
+	}
+	plain := filepath.Join(filepath.Dir(self), strings.TrimSuffix(filepath.Base(self), "-race"))
+	if plain == self {
+		return run.Result{}, false
+	}
+	if _, err := os.Stat(plain); err != nil {
+		return run.Result{}, false
+	}
+	pr, pw, err := os.Pipe()
+	if err != nil {
+		return run.Result{}, false
+	}
+	defer pr.Close()
+	ctx, cancel := context.WithTimeout(context.Background(), 50*time.Minute)
+	defer cancel()
+	cmd := exec.CommandContext(ctx, plain, "worker", "C25")
+	cmd.Env = os.Environ()
+	cmd.ExtraFiles = []*os.File{pw}
+	b, _ := json.Marshal(c)
+	cmd.Stdin = bytes.NewReader(append(b, '\n'))
+	var eb bytes.Buffer
+	cmd.Stdout, cmd.Stderr = &eb, &eb
+	if err := cmd.Start(); err != nil {
+		pw.Close()
+		return run.Result{}, false
+	}
+	pw.Close()
+	var out run.Result
+	got := false
+	dec := json.NewDecoder(pr)
+	for {
+		var m struct {
+			Begin  string      `json:"begin,omitempty"`
+			Result *run.Result `json:"result,omitempty"`
+		}
+		if err := dec.Decode(&m); err != nil {
+			break
+		}
+		if m.Result != nil {
+			out, got = *m.Result, true
+		}
+	}
+	werr := cmd.Wait()
+	if ctx.Err() != nil {
+		return run.Result{ID: c.ID, Inconclusive: "plain-build helper hit the harness wall-clock limit (machine starved)"}, true
+	}
+	if !got {
+		// the helper died while rendering: after-first-render crashes are violations there too,
+		// but a dead helper tells us nothing about which render it was
+		r := run.Result{ID: c.ID}
+		r.Viol("C25.crash", "C25.crash:plain-helper-died", fmt.Sprintf("plain-build helper died (%v): %s", werr, trunc(eb.String(), 1500)))
+		return r, true
+	}
+	out.Inc("delegated_to_plain_build")
+	return out, true
 }
